@@ -453,6 +453,7 @@ type Contract struct {
 	Replay     map[string]string
 	ThoroughOnly bool // "tier thorough": the function's obligations are generated in the thorough tier only
 	AbsIdx    bool // quantify over absolute indices (change of variable) in this function's verification
+	SliceWF   bool // assume the type invariant of slice headers that spec expressions read from the heap
 	AtCall    map[string][]*Clause // conditions that must hold whenever this function calls the named callee
 	AssumePre map[string]string    // "Callee" or "Callee.label" -> reason: that precondition is assumed (not checked) at this function's calls
 	GhostSets [][2]string // ghost assignments executed at every return: target ghost application, value expression
@@ -496,7 +497,7 @@ func NewSpecs() *Specs {
 	return &Specs{Contracts: map[string]*Contract{}, Funs: map[string]*SpecFun{}, Ghosts: map[string]*GhostFun{}}
 }
 
-var keywordRe = regexp.MustCompile(`^(func|iface|functype|spec|ufun|hfun|haxiom|hlemma|axiom|lemma|ghost|property|trusted|pure|implements|requires|ensures|modifies|loop|invariant|decreases|end|may_panic|nosafety|assume|alloc|hint|posthint|replay|check|split|ghostset|atcall|absidx|tier)\b`)
+var keywordRe = regexp.MustCompile(`^(func|iface|functype|spec|ufun|hfun|haxiom|hlemma|axiom|lemma|ghost|property|trusted|pure|implements|requires|ensures|modifies|loop|invariant|decreases|end|may_panic|nosafety|assume|alloc|hint|posthint|replay|check|split|ghostset|atcall|assumepre|slicewf|absidx|tier)\b`)
 var labelRe = regexp.MustCompile(`^([A-Za-z_][A-Za-z0-9_.]*)\s*:([^:]|$)`)
 var propTagRe = regexp.MustCompile(`^\[([A-Za-z0-9 ,]+)\]\s*`)
 var headRe = regexp.MustCompile(`^(\S.*?)\(([^)]*)\)\s*(?:\(([^)]*)\))?\s*$`)
@@ -637,6 +638,8 @@ func (sp *Specs) ParseSpecFile(path string, pkg string) error {
 			cur.Props = append(cur.Props, strings.Fields(rest)...)
 		case "absidx":
 			cur.AbsIdx = true
+		case "slicewf":
+			cur.SliceWF = true
 		case "tier":
 			cur.ThoroughOnly = strings.TrimSpace(rest) == "thorough"
 		case "trusted":
